@@ -264,18 +264,23 @@ pub fn get_navigation_node_from_braille_position(mathml: Element, position: usiz
 
     // save the current highlight state, set the state to be the end points so we can find the braille, then restore the state
     // FIX: this can fail if there is 8-dot braille
-    use crate::interface::{get_preference, set_preference};
+    // Note: the temporary change is not made with set_preference() because that records the pref as set by the API,
+    //   and such a value overrides what the user later changes in their prefs file
+    use crate::interface::get_preference;
+    let set_highlight_style = |style: &str| -> Result<()> {
+        return PreferenceManager::get().borrow_mut().set_user_prefs("BrailleNavHighlight", style);
+    };
     if mathml.children().is_empty() {
         bail!("MathML has not been set -- can't find the navigation node for a braille position");
     }
     let saved_highlight_style = get_preference("BrailleNavHighlight".to_string())?;
-    set_preference("BrailleNavHighlight".to_string(), "EndPoints".to_string())?;
+    set_highlight_style("EndPoints")?;
 
     N_PROBES.with(|n| {*n.borrow_mut() = 0});
     // dive into the child of the <math> element (should only be one)
     let search_state = find_navigation_node(mathml, as_element(mathml.children()[0]), position);
     // restore the preference before dealing with a potential error from the search
-    set_preference("BrailleNavHighlight".to_string(), saved_highlight_style.to_string())?;
+    set_highlight_style(&saved_highlight_style)?;
     let search_state = search_state?;
 
     // we know the attr value exists because it was found internally
